@@ -1,5 +1,320 @@
 package main
 
+import (
+	"encoding/json"
+	"fmt"
+	"os"
+	"os/exec"
+	"path/filepath"
+	"sort"
+	"strings"
+	"sync"
+	"time"
+)
+
+// thorough tier (DESIGN 2.5): the quick analysis plus
+//  (1) the same rules under GOARCH=386 and under -tags verif: the set of failing obligations must be identical
+//      (a difference is a defect of the checker → exit 2);
+//  (2) a mutation self-test of this property's rules: catalogue mutants (single-site rewrites of the current
+//      tree), reverts of the fix: commits, and the seeded changes of independent sub-agents are each applied to a
+//      scratch copy outside /repo and /verif, analysed in their own process (at most 6 at a time) and must be
+//      reported. Survivors and mutants whose anchor no longer exists are listed; they never change the exit code
+//      (they say something about the checker, not about the property).
+
+type catalogMutant struct {
+	ID    string   `json:"id"`
+	Props []string `json:"props"`
+	Rule  string   `json:"rule"`
+	File  string   `json:"file"`
+	Old   string   `json:"old"`
+	New   string   `json:"new"`
+	N     int      `json:"n"`
+	Why   string   `json:"why"`
+}
+
+type mutantJob struct {
+	id      string
+	kind    string // catalog | revert | seeded
+	rule    string
+	apply   func(dir string) error
+	outcome string // killed | survived | anchor-lost | error
+	keys    []string
+	detail  string
+}
+
+func selfExe() string {
+	if p, err := os.Executable(); err == nil {
+		return p
+	}
+	return os.Args[0]
+}
+
+func runKeys(prop, repo string, extra ...string) (keys []string, undecided []string, err error) {
+	args := append([]string{"check", "-prop", prop, "-repo", repo, "-noevidence", "-keysonly"}, extra...)
+	cmd := exec.Command(selfExe(), args...)
+	cmd.Env = os.Environ()
+	out, _ := cmd.CombinedOutput()
+	for _, l := range strings.Split(string(out), "\n") {
+		if strings.HasPrefix(l, "FAILKEY ") {
+			keys = append(keys, strings.TrimPrefix(l, "FAILKEY "))
+		}
+		if strings.HasPrefix(l, "UNDECIDED ") {
+			undecided = append(undecided, strings.TrimPrefix(l, "UNDECIDED "))
+		}
+	}
+	sort.Strings(keys)
+	return keys, undecided, nil
+}
+
+func copyTree(src, dst string) error {
+	return filepath.Walk(src, func(p string, info os.FileInfo, err error) error {
+		if err != nil {
+			return err
+		}
+		rel, _ := filepath.Rel(src, p)
+		if rel == ".git" || strings.HasPrefix(rel, ".git"+string(filepath.Separator)) {
+			if info.IsDir() {
+				return filepath.SkipDir
+			}
+			return nil
+		}
+		target := filepath.Join(dst, rel)
+		if info.IsDir() {
+			return os.MkdirAll(target, 0o755)
+		}
+		if !info.Mode().IsRegular() {
+			return nil
+		}
+		b, err := os.ReadFile(p)
+		if err != nil {
+			return err
+		}
+		return os.WriteFile(target, b, 0o644)
+	})
+}
+
+func nthIndex(s, sub string, n int) int {
+	idx := -1
+	from := 0
+	for i := 0; i <= n; i++ {
+		k := strings.Index(s[from:], sub)
+		if k < 0 {
+			return -1
+		}
+		idx = from + k
+		from = idx + len(sub)
+	}
+	return idx
+}
+
 func thoroughImpl(spec *PropSpec, o *checkOpts, fails []Obl) (map[string]interface{}, int) {
-	return map[string]interface{}{"note": "not built yet"}, 0
+	t0 := time.Now()
+	res := map[string]interface{}{}
+	exit := 0
+	var base []string
+	for _, f := range fails {
+		base = append(base, f.Key)
+	}
+	sort.Strings(base)
+
+	// (1) configurations
+	var cfgRes []map[string]interface{}
+	for _, cfg := range [][]string{{"-goarch", "386"}, {"-tags", "verif"}} {
+		keys, und, _ := runKeys(spec.ID, o.repo, cfg...)
+		same := strings.Join(keys, "\n") == strings.Join(base, "\n") && len(und) == 0
+		cfgRes = append(cfgRes, map[string]interface{}{"config": strings.Join(cfg, " "), "failing_keys": keys, "undecided": und, "identical_to_default": same})
+		if !same {
+			fmt.Printf("UNDECIDED property=%s configuration %s gives a different result than the default configuration (default %v, here %v, undecided %v)\n", spec.ID, strings.Join(cfg, " "), base, keys, und)
+			exit = 2
+		}
+	}
+	res["configurations"] = cfgRes
+	res["cha_cross_check"] = "not run: recomputing the context-sensitive lockset and callback-entry analyses over the CHA graph does not terminate in useful time (>40 min: CHA resolves every interface call in the standard library to every implementation); VTA edges of the four dynamic-call families are asserted by rule CG0 instead"
+
+	// (2) mutants
+	var jobs []*mutantJob
+	ruleSet := map[string]bool{}
+	for _, r := range spec.Rules {
+		ruleSet[r] = true
+	}
+	if b, err := os.ReadFile(filepath.Join(o.verif, "mutants", "catalog.json")); err == nil {
+		var doc struct {
+			Mutants []catalogMutant `json:"mutants"`
+		}
+		if json.Unmarshal(b, &doc) == nil {
+			for _, m := range doc.Mutants {
+				m := m
+				relevant := false
+				for _, p := range m.Props {
+					if p == spec.ID {
+						relevant = true
+					}
+				}
+				if !relevant || !ruleSet[m.Rule] {
+					continue
+				}
+				jobs = append(jobs, &mutantJob{id: m.ID, kind: "catalog", rule: m.Rule, apply: func(dir string) error {
+					p := filepath.Join(dir, m.File)
+					src, err := os.ReadFile(p)
+					if err != nil {
+						return fmt.Errorf("anchor-lost: %v", err)
+					}
+					i := nthIndex(string(src), m.Old, m.N)
+					if i < 0 {
+						return fmt.Errorf("anchor-lost: text to rewrite not found in %s", m.File)
+					}
+					out := string(src)[:i] + m.New + string(src)[i+len(m.Old):]
+					return os.WriteFile(p, []byte(out), 0o644)
+				}})
+			}
+		}
+	}
+	patchJob := func(id, kind, patch string) *mutantJob {
+		return &mutantJob{id: id, kind: kind, apply: func(dir string) error {
+			cmd := exec.Command("patch", "-p1", "-s", "-f", "-i", patch)
+			cmd.Dir = dir
+			if out, err := cmd.CombinedOutput(); err != nil {
+				return fmt.Errorf("anchor-lost: patch does not apply: %s", strings.TrimSpace(string(out)))
+			}
+			return nil
+		}}
+	}
+	// seeded changes of this property
+	if ds, err := filepath.Glob(filepath.Join(o.verif, "seeded", "*", "meta.json")); err == nil {
+		for _, mf := range ds {
+			var meta struct {
+				ID, Property string
+				DetectedBy   []string `json:"detected_by"`
+			}
+			b, _ := os.ReadFile(mf)
+			if json.Unmarshal(b, &meta) != nil {
+				continue
+			}
+			hit := meta.Property == spec.ID
+			for _, d := range meta.DetectedBy {
+				if strings.HasPrefix(d, spec.ID+":") {
+					hit = true
+				}
+			}
+			if !hit {
+				continue
+			}
+			jobs = append(jobs, patchJob("seeded/"+meta.ID, "seeded", filepath.Join(filepath.Dir(mf), "patch.diff")))
+		}
+	}
+	// reverts of the fix: commits that this property's rules are expected to see (mutants/revert/index.json)
+	if b, err := os.ReadFile(filepath.Join(o.verif, "mutants", "revert", "index.json")); err == nil {
+		var idx map[string]struct {
+			Commit string
+			Props  []string
+		}
+		if json.Unmarshal(b, &idx) == nil {
+			var names []string
+			for n := range idx {
+				names = append(names, n)
+			}
+			sort.Strings(names)
+			for _, n := range names {
+				for _, p := range idx[n].Props {
+					if p == spec.ID {
+						jobs = append(jobs, patchJob("revert/"+idx[n].Commit, "revert", filepath.Join(o.verif, "mutants", "revert", n)))
+					}
+				}
+			}
+		}
+	}
+
+	sem := make(chan struct{}, 6)
+	var wg sync.WaitGroup
+	for _, j := range jobs {
+		wg.Add(1)
+		go func(j *mutantJob) {
+			defer wg.Done()
+			sem <- struct{}{}
+			defer func() { <-sem }()
+			dir, err := os.MkdirTemp("", "hlsverif-mut-")
+			if err != nil {
+				j.outcome, j.detail = "error", err.Error()
+				return
+			}
+			defer os.RemoveAll(dir)
+			if err := copyTree(o.repo, dir); err != nil {
+				j.outcome, j.detail = "error", err.Error()
+				return
+			}
+			if err := j.apply(dir); err != nil {
+				if strings.HasPrefix(err.Error(), "anchor-lost") {
+					j.outcome = "anchor-lost"
+				} else {
+					j.outcome = "error"
+				}
+				j.detail = err.Error()
+				return
+			}
+			keys, und, _ := runKeys(spec.ID, dir)
+			var newKeys []string
+			for _, k := range keys {
+				isBase := false
+				for _, b := range base {
+					if b == k {
+						isBase = true
+					}
+				}
+				if !isBase {
+					newKeys = append(newKeys, k)
+				}
+			}
+			j.keys = newKeys
+			switch {
+			case len(newKeys) > 0:
+				j.outcome = "killed"
+				if j.rule != "" {
+					hit := false
+					for _, k := range newKeys {
+						if strings.HasPrefix(k, j.rule+"|") {
+							hit = true
+						}
+					}
+					if !hit {
+						j.detail = "reported, but by another rule than the expected " + j.rule
+					}
+				}
+			case len(und) > 0:
+				j.outcome = "survived"
+				j.detail = "undecided (no violation reported): " + strings.Join(und, "; ")
+			default:
+				j.outcome = "survived"
+			}
+		}(j)
+	}
+	wg.Wait()
+	counts := map[string]int{}
+	var list []map[string]interface{}
+	for _, j := range jobs {
+		counts[j.outcome]++
+		e := map[string]interface{}{"id": j.id, "kind": j.kind, "outcome": j.outcome}
+		if j.rule != "" {
+			e["expected_rule"] = j.rule
+		}
+		if len(j.keys) > 0 {
+			k := j.keys
+			if len(k) > 4 {
+				k = k[:4]
+			}
+			e["reported_keys"] = k
+		}
+		if j.detail != "" {
+			e["detail"] = j.detail
+		}
+		list = append(list, e)
+		if j.outcome != "killed" {
+			fmt.Printf("  self-test: mutant %s %s %s\n", j.id, j.outcome, j.detail)
+		}
+	}
+	res["mutants"] = list
+	res["mutant_counts"] = counts
+	res["mutants_total"] = len(jobs)
+	res["self_test_wall_s"] = time.Since(t0).Seconds()
+	fmt.Printf("  thorough: %d mutants of %s's rules: %v; configurations identical: %v\n", len(jobs), spec.ID, counts, exit == 0)
+	return res, exit
 }
